@@ -109,7 +109,7 @@ func VerifC17Staking() {
 		receipt.Logs = append(receipt.Logs, l)
 	}
 
-	err := h.PostTxProcessing(ctx, nil, receipt)
+	err := h.PostTxProcessing(ctx, anyTxMessage(), receipt)
 
 	rt.Reach("hook-returned")
 	nFrom := 0
@@ -163,4 +163,15 @@ func VerifC17Staking() {
 			rt.Assert("D2-known-message-type", false)
 		}
 	}
+}
+
+// anyTxMessage: the EVM transaction whose receipt is processed - any sender, any recipient (an externally owned account
+// calling the system contract directly, a user contract that calls it in a nested call, a contract creation), any call data.
+func anyTxMessage() ethtypes.Message {
+	var to *common.Address
+	if rt.Bool("tx.has-recipient") {
+		a := common.BytesToAddress(rt.BytesN("tx.to", 20))
+		to = &a
+	}
+	return ethtypes.NewMessage(common.BytesToAddress(rt.BytesN("tx.from", 20)), to, rt.U64("tx.nonce"), big.NewInt(0), rt.U64("tx.gas"), big.NewInt(0), big.NewInt(0), big.NewInt(0), rt.Bytes("tx.data"), nil, false)
 }
